@@ -43,9 +43,9 @@ TxOwnTexts(d, i) == TxOwnTextsR(d, i, TRUE)
 
 \* one needle.  The empty needle occurs in every string, the empty concatenation included; for the
 \* -own form there must still be a text child for it to occur in.
-TxDescHas(d, i, v, selfcut) == Contains(TxTextOfR(d, i, selfcut), v)
+TxDescHas(d, i, v, selfcut) == HasInfix(TxTextOfR(d, i, selfcut), v)
 TxOwnHas(d, i, v, selfcut) ==
-    LET own == TxOwnTextsR(d, i, selfcut) IN \E m \in 1..Len(own) : Contains(own[m], v)
+    LET own == TxOwnTextsR(d, i, selfcut) IN \E m \in 1..Len(own) : HasInfix(own[m], v)
 
 TxSelfCut(s) == ~("alt" \in DOMAIN s /\ s.alt)
 
@@ -94,7 +94,7 @@ TxThStructural(d) ==
 \*     them exactly when a needle spans a boundary (stated as the inclusion only)
 TxThJoinWeaker(d, needles) ==
     \A i \in Elems(d) : \A v \in needles :
-        TxOwnHas(d, i, v, TRUE) => Contains(Concat(TxOwnTextsR(d, i, TRUE)), v)
+        TxOwnHas(d, i, v, TRUE) => HasInfix(Concat(TxOwnTextsR(d, i, TRUE)), v)
 
 \* T6  the two readings differ only on TxUndecided
 TxThReadings(d, needles) ==
